@@ -3,6 +3,7 @@ import random
 
 import cellkit as ck
 import hmkit as hk
+import hmobjkit
 from pytoniq_core.boc import Builder, Cell, Slice
 from pytoniq_core.boc.address import Address
 from pytoniq_core.boc.hashmap.hashmap import HashMap
@@ -20,7 +21,7 @@ ASSUMPTIONS = ['TonHashmap.ParseHeap is an independent reading of hm_edge/hml_*/
 EXHAUSTIVE = {'quick': False, 'thorough': False}
 
 
-def model_checks(tier):
+def _model_checks(tier):
     q = tier == 'quick'
     return [dict(name='hm3_g', module='MC_Hashmap.tla', gen=True, workers=4, cfg=hk.hm_cfg(3, range(8), 8, 'TRUE', '{"canon"}', invs=False)),
             dict(name='hm16_g', module='MC_Hashmap.tla', gen=True, workers=4,
@@ -29,6 +30,16 @@ def model_checks(tier):
         ([] if q else [dict(name='hm4_g', module='MC_Hashmap.tla', gen=True, workers=8, timeout=1500,
                             cfg=hk.hm_cfg(4, range(16), 8, 'TRUE', '{"canon"}', invs=False)),
                        dict(name='hm4_m', module='MC_Hashmap.tla', workers=16, timeout=2400, cfg=hk.hm_cfg(4, range(16), 8, 'FALSE'))])
+
+
+def model_checks(tier):
+    import os
+    return _model_checks(tier) + hmobjkit.model_checks(tier, int(os.environ.get('VERIF_SEED', '0') or 0))
+
+
+def extra_generate(tier, seed, ctx, first_id):
+    # HashMap OBJECT histories (TLC-simulated behaviours of MC_HmObj + seeded random walks), validated against TonHmObj
+    return [('HmObjTrace.tla', hmobjkit.generate(tier, seed, ctx, first_id), hmobjkit.make_canaries)]
 
 
 def parse_routes(cell, w, vw):
@@ -166,7 +177,7 @@ def generate(tier, seed, ctx):
     rng = random.Random(seed)
     q = tier == 'quick'
     out = []
-    for name in sorted(ctx['mc']):
+    for name in sorted(n for n in ctx['mc'] if n.startswith('hm') and not n.startswith('hmobj')):
         for case in ctx['mc'][name]:
             if case['aug']:
                 continue
@@ -253,12 +264,18 @@ def canary(r, rng):
 
 
 def nontrivial_key(r):
+    if r['op'] in ('hmcall', 'reset'):
+        c = r.get('call')
+        return None if c is None or c['op'] not in ('ser', 'parse') else ('hm', repr(r['post']), c['op'], c.get('via'))
     if r['op'] != 'dict' or len(r['items']) < 2:
         return None
     return (r['w'], r['form'], repr(sorted(repr(i['key']) for i in r['items'])))
 
 
 def extra_coverage(flat, ctx):
+    hm = [r for r in flat if r['op'] == 'hmcall']
+    flat = [r for r in flat if r['op'] not in ('hmcall', 'reset')]
     ws = sorted({r['w'] for r in flat})
     return {'widths': ws, 'forms': sorted({r['form'] for r in flat}),
-            'max_keys': max(len(r.get('items', [])) for r in flat), 'invalid_key_probes': sum(1 for r in flat if r['op'] == 'badkey')}
+            'max_keys': max(len(r.get('items', [])) for r in flat), 'invalid_key_probes': sum(1 for r in flat if r['op'] == 'badkey'),
+            'object_history_calls': len(hm), 'object_history_calls_from_tlc_behaviours': sum(1 for r in hm if 'tlc_behaviour' in r.get('tags', []))}
